@@ -9,17 +9,20 @@ from .. import flow
 PID = "C07"
 LEVEL = "other"
 EXPLANATION = (
-    "Static structural analysis over pre-borrowck MIR of every body of the server/core crates. Decided, for every path "
-    "of the current source: R1 every function that finishes a soketto *server* connection configures "
-    "Builder::set_max_message_size on that builder before finish(), and the argument originates (identity-only: moves, "
-    "borrows, casts, struct plumbing followed across functions and field writes) from a field named "
-    "max_request_body_size of the server configuration; R2 the limit operand of http_body_util::Limited::new in "
-    "read_body and the limit argument of every in-crate caller of read_body / call_with_service originates likewise; "
-    "R3 ServerConfigBuilder::build copies every field from the same-named builder field and every setter named after "
-    "a field writes that field; R4 every http_body frame read in read_body goes through the Limited wrapper built with "
-    "the limit parameter and handle_rpc_call in call_with_service is dominated by the Ok arm of read_body; R5 the WS "
-    "MessageTooLarge arm sends reject_too_big_request(<request limit>) and reaches no dispatch before the next receive. "
-    "NOT decided: soketto's / hyper's own enforcement and boundary arithmetic inside them; behaviour for concrete sizes."
+    'Static structural analysis over pre-borrowck MIR of every body of the server/core crates. Decided, for every '
+    'path of the current source: R1 every function that finishes a soketto *server* connection configures '
+    'Builder::set_max_message_size on that builder before finish(), and the argument originates (identity-only: '
+    'moves, borrows, casts, struct plumbing followed across functions and field writes) from a field named '
+    'max_request_body_size of the server configuration; R2 the limit operand of http_body_util::Limited::new in '
+    'read_body and the limit argument of every in-crate caller of read_body / call_with_service originates likewise; '
+    'R3 ServerConfigBuilder::build copies every field from the same-named builder field and every setter named after '
+    'a field writes that field; R4 every http_body frame read in read_body goes through the Limited wrapper built '
+    'with the limit parameter and handle_rpc_call in call_with_service is dominated by the Ok arm of read_body; R5 '
+    'the WS MessageTooLarge arm sends reject_too_big_request(<request limit>) and reaches no dispatch before the next '
+    'receive. R6 every ordering comparison against a value originating from max_request_body_size anywhere in '
+    'server/core keeps the limit inclusive (size > limit refuses, size <= limit admits); CFG the configured value '
+    "reaches ServerConfig verbatim and no builder step rebuilds the config from defaults. NOT decided: soketto's / "
+    "hyper's own enforcement and boundary arithmetic inside them; behaviour for concrete sizes."
 )
 RULE_TEXT = (
     "instances = soketto server-builder sites, Limited::new sites, callers of read_body/call_with_service, ServerConfig "
@@ -161,6 +164,18 @@ def r3_plumbing(ctx):
                     p = st["pl"].get("p", [])
                     if p and isinstance(p[-1], dict) and "f" in p[-1] and p[-1].get("o", "").startswith("jsonrpsee_server::server::ServerConfig"):
                         writes.append((p[-1]["n"], st))
+        if not writes:
+            # struct-update spelling `Self { field: value, ..self }`: the fields "written" are those that are not copied
+            # from the same field of self
+            for bi, blk in enumerate(b.blocks):
+                if blk.get("cleanup"):
+                    continue
+                for st in blk["st"]:
+                    if st["s"] == "assign" and st["rv"]["k"] == "agg" and st["rv"].get("adt", "").startswith("jsonrpsee_server::server::ServerConfig"):
+                        for fname, op in zip(st["rv"]["fields"], st["rv"]["ops"]):
+                            lv = tr.origins(b, op)
+                            if not (lv and all(l.kind == "field" and terminal_field(l)[1] == fname for l in lv)):
+                                writes.append((fname, {"rv": {"k": "use", "op": op}, "sp": st["sp"]}))
         if not writes:
             continue
         ns += 1
